@@ -35,7 +35,8 @@ type dropWrapper struct {
 }
 
 func (w *dropWrapper) Resolve() Value {
-	w.Do(func() { w.v = ValueOf(w.d.ToLiquid()) })
+	// (through ToLiquid: a nil pointer to a drop type is nil)
+	w.Do(func() { w.v = ValueOf(ToLiquid(w.d)) })
 	return w.v
 }
 
